@@ -457,7 +457,9 @@ impl Ctx {
     pub fn want(&mut self, stream: &str, idx: u64) -> bool {
         let w = match &self.only {
             Some((s, i)) => s == stream && *i == idx,
-            None => idx % self.nshards == self.shard,
+            // streams named "iso.*" hold cases that may kill the process (stack overflow,
+            // abort); the orchestrator runs each of them in a process of its own
+            None => !stream.starts_with("iso.") && idx % self.nshards == self.shard,
         };
         if w {
             if self.cur.0 != stream {
@@ -617,7 +619,13 @@ impl Ctx {
     }
 
     pub fn report_panic(&mut self, entry: &str, p: &PanicInfo, input: &dyn Fn() -> Value) {
-        let (sig, in_repo) = self.panic_signature(entry, p);
+        self.report_panic2(entry, entry, p, input)
+    }
+
+    /// `sig_entry` goes into the signature (use a constant to make the signature depend on
+    /// the panic site only), `entry` into the description.
+    pub fn report_panic2(&mut self, sig_entry: &str, entry: &str, p: &PanicInfo, input: &dyn Fn() -> Value) {
+        let (sig, in_repo) = self.panic_signature(sig_entry, p);
         // A panic raised by std on behalf of gimli (e.g. slice indexing inside core) is
         // located in the standard library; attribute it to gimli unless it is in the harness.
         let in_std = p.file.contains("/library/") || p.file.contains("/rustc/");
